@@ -8,6 +8,7 @@ def read_leb128(data, sign=1, offset=0):
     result = 0
     shift = 0
     count = 0
+    b = 0  # (empty data decodes as 0 in 0 bytes)
     for b in data[offset:]:
         if isinstance(b, bytes):
             b = ord(b)
